@@ -5,17 +5,11 @@ from . import wire, pywire, cppwire, pytrace, shadows
 from .common import Report, scratch_dir
 
 
-def _run(pid, tier, checks, replay, assumptions, rule, extra_leg=None):
-    rep = Report(pid, tier)
-    rep.assumptions = assumptions
-    if extra_leg:
-        extra_leg(rep, tier, pid)
-    vs = wire.generate(tier)
-    for st in vs.stats:
-        rep.add_tlc(st)
+def py_leg(rep, vs, checks, worker=None):
+    """Replay the vector set into the Python codec; fold results into rep."""
+    pid = rep.pid
     groups = wire.group_vectors(vs)
-    results = wire.run_batches(pywire.worker, groups, vs, {"checks": checks, "scratch": scratch_dir("py")})
-    nontrivial = set()
+    results = wire.run_batches(worker or pywire.worker, groups, vs, {"checks": checks, "scratch": scratch_dir("py")})
     for r in results:
         if "crash" in r:
             rep.violation({"what": "worker crashed or hung: %s" % r["crash"], "groups": r["groups"]})
@@ -25,11 +19,25 @@ def _run(pid, tier, checks, replay, assumptions, rule, extra_leg=None):
         for s in r["samples"]:
             rep.sample(s)
         for gid in r["nontrivial"]:
-            rep.nontrivial(gid)
+            rep.nontrivial("py:%s" % gid)
         for f in r["fails"]:
             rep.violation(f, shadows.match(pid, f))
+        for k, n in r.get("n_checked", {}).items():
+            rep.cov["py_checked_" + k] = rep.cov.get("py_checked_" + k, 0) + n
+    rep.cov["py_schemas"] = len(groups)
+    return groups
+
+
+def _run(pid, tier, checks, replay, assumptions, rule, extra_leg=None):
+    rep = Report(pid, tier)
+    rep.assumptions = assumptions
+    if extra_leg:
+        extra_leg(rep, tier, pid)
+    vs = wire.generate(tier)
+    for st in vs.stats:
+        rep.add_tlc(st)
+    py_leg(rep, vs, checks)
     rep.cov["rule"] = rule
-    rep.cov["schemas"] = len(groups)
     rep.cov["exhaustive"] = True
     return rep.finish()
 
@@ -96,12 +104,25 @@ def c02(tier, replay):
         "round trip claimed only for vectors with GreedyTailAligned (spec operator)"], RULE)
 
 
+def _both(pid, tier, py_checks, cpp_checks, assumptions, rule):
+    rep = Report(pid, tier)
+    rep.assumptions = assumptions
+    vs = wire.generate(tier)
+    for st in vs.stats:
+        rep.add_tlc(st)
+    py_leg(rep, vs, py_checks)
+    cpp_leg(rep, vs, cpp_checks, tier)
+    rep.cov["rule"] = rule
+    rep.cov["exhaustive"] = rep.cov["cpp_schemas"] == rep.cov["cpp_schemas_available"]
+    return rep.finish()
+
+
 def c04(tier, replay):
-    return _run("C04", tier, ["layout"], replay, ASSUME_COMMON, RULE)
+    return _both("C04", tier, ["layout"], ["ebs"], ASSUME_CPP, RULE_CPP)
 
 
 def c19(tier, replay):
-    return _run("C19", tier, ["mirror"], replay, ASSUME_COMMON, RULE)
+    return _both("C19", tier, ["mirror"], ["mirror"], ASSUME_CPP, RULE_CPP)
 
 
 def c06(tier, replay):
@@ -154,13 +175,11 @@ def _select_cpp(groups, tier, cap_quick=600, cap_thorough=12000):
     return rnd.sample(groups, cap)
 
 
-def _run_cpp(pid, tier, checks, assumptions, rule, vs=None, nbatch=12, shadow_pid=None):
-    rep = Report(pid, tier)
-    rep.assumptions = assumptions
-    vs = vs or wire.generate(tier, light=True)
-    for st in vs.stats:
-        rep.add_tlc(st)
-    groups = _select_cpp(wire.group_vectors(vs), tier)
+def cpp_leg(rep, vs, checks, tier, nbatch=12):
+    """Replay the vector set into the generated C++ full codec."""
+    pid = rep.pid
+    all_groups = wire.group_vectors(vs)
+    groups = _select_cpp(all_groups, tier)
     results = wire.run_batches(cppwire.worker, groups, vs, {"checks": checks, "scratch": scratch_dir("cpp")},
                                nbatch=nbatch, timeout=3000)
     outcomes = {}
@@ -173,19 +192,30 @@ def _run_cpp(pid, tier, checks, assumptions, rule, vs=None, nbatch=12, shadow_pi
         for s in r["samples"]:
             rep.sample(s)
         for gid in r["nontrivial"]:
-            rep.nontrivial(gid)
+            rep.nontrivial("cpp:%s" % gid)
         for k, n in r.get("outcomes", {}).items():
             outcomes[k] = outcomes.get(k, 0) + n
         for f in r["fails"]:
             rep.violation(f, shadows.match(pid, f))
+        for k, n in r.get("n_checked", {}).items():
+            rep.cov["cpp_checked_" + k] = rep.cov.get("cpp_checked_" + k, 0) + n
         rep.cov["skipped_not_cpp_full"] = rep.cov.get("skipped_not_cpp_full", 0) + r["skipped_groups"]
-        rep.cov["cpu_s_build"] = round(rep.cov.get("cpu_s_build", 0) + r.get("t_build", 0), 1)
-        rep.cov["cpu_s_run"] = round(rep.cov.get("cpu_s_run", 0) + r.get("t_run", 0), 1)
     if outcomes:
         rep.cov["outcomes (fault/cpp/spec-decoder)"] = outcomes
+    rep.cov["cpp_schemas"] = len(groups)
+    rep.cov["cpp_schemas_available"] = len(all_groups)
+    return groups
+
+
+def _run_cpp(pid, tier, checks, assumptions, rule, vs=None, nbatch=12):
+    rep = Report(pid, tier)
+    rep.assumptions = assumptions
+    vs = vs or wire.generate(tier, light=True)
+    for st in vs.stats:
+        rep.add_tlc(st)
+    cpp_leg(rep, vs, checks, tier, nbatch)
     rep.cov["rule"] = rule
-    rep.cov["schemas"] = len(groups)
-    rep.cov["exhaustive"] = len(groups) == len(wire.group_vectors(vs))
+    rep.cov["exhaustive"] = rep.cov["cpp_schemas"] == rep.cov["cpp_schemas_available"]
     return rep.finish()
 
 
@@ -202,3 +232,60 @@ def c03(tier, replay):
 
 def c05(tier, replay):
     return _run_cpp("C05", tier, ["gbs"], ASSUME_CPP, RULE_CPP)
+
+
+def c07(tier, replay):
+    vs = wire.generate_faults(tier)
+    return _run_cpp("C07", tier, ["memsafe"], ASSUME_CPP + [
+        "fault space as in C06 (spec/WireDec.tla Faulted); allocation during decode is summed by a replaced global "
+        "operator new in the driver (budget 64*len + 64 KiB, exceeded => the process stops instead of allocating)",
+        "the reference decoder's accept/reject verdict is recorded as information only"],
+        "TLC enumerates every faulted image (truncations, extensions, control-word corruptions) of every enumerated "
+        "(schema, value); each is decoded by the generated C++ codec under ASan+UBSan; distinct = distinct schemas",
+        vs=vs)
+
+
+def c18(tier, replay):
+    """Text rendering: spec/Print.tla text vs python str() vs C++ print()."""
+    import random
+    from . import schema as S
+    rep = Report("C18", tier)
+    rep.assumptions = ASSUME_CPP + [
+        "scalar payloads are replaced by values the Print specification can render (non-negative < 2^31, -1, small "
+        "negative i8/i16) and bytes of every escape class except the single quote; schemas with floats are not used",
+        "the C++ object printed is the one decoded from the specification's little-endian image"]
+    vs = wire.generate(tier, light=True)
+    for st in vs.stats:
+        rep.add_tlc(st)
+    groups = wire.group_vectors(vs)
+    rnd = random.Random(wire.seed())
+    cap = 500 if tier == "quick" else 6000
+    if len(groups) > cap:
+        groups = rnd.sample(groups, cap)
+    items, where = [], []
+    for g in groups:
+        env = wire.make_env(vs.inner[g["inner"]], g)
+        t = S.Ref(len(env.defs))
+        keep = g["vectors"] if len(g["vectors"]) <= 6 else rnd.sample(g["vectors"], 6)
+        g["vectors"] = keep
+        for vec in keep:
+            vec["walk"] = wire.repayload_for_print(env, t, vec["walk"])
+            items.append({"env": env.defs, "names": env.names, "walk": vec["walk"], "obsL": [], "obsB": []})
+            where.append(vec)
+    texts, st1 = wire.render_text(items)
+    rep.add_tlc(st1)
+    verdicts, illegal, st2 = wire.validate_traces(items)
+    rep.add_tlc(st2)
+    for vec, text, v in zip(where, texts, verdicts):
+        if text is None or v is None or "?" in text:
+            raise wire.MachineryError("specification produced no text/bytes for a print item: %r" % (text,))
+        vec["text"] = text
+        vec["outL"], vec["outB"], vec["gta"] = v["outL"], v["outB"], v["gta"]
+        vec.pop("role", None)
+    vs2 = wire.VectorSet()
+    vs2.inner = vs.inner
+    vs2.vectors = [v for g in groups for v in g["vectors"]]
+    py_leg(rep, vs2, ["print"])
+    cpp_leg(rep, vs2, ["print"], tier)
+    rep.cov["rule"] = RULE_CPP + "; text comes from spec/Print.tla for the re-payloaded walk"
+    return rep.finish()
